@@ -243,6 +243,12 @@ func TestVerifArgumentsAndStateReuse(t *testing.T) {
 		} else {
 			a = newArena(msg, info, salt, rb.Bytes(), rInv.Bytes())
 		}
+		// the verifier hands out its hash object (Hash()); a caller that used it
+		// for something else and left data in it must not change the next run
+		if c.run%3 != 2 {
+			_, _ = verifier.Hash().Write(r.Bytes(1 + r.Intn(40)))
+			lib.Count("args:pbrsa-hash-object-left-dirty")
+		}
 		b1, st1, e1 := verifier.FixedBlind(a.arg(mi), a.arg(ii), a.arg(2), a.arg(3), a.arg(4))
 		b2, _, e2 := verifier2.FixedBlind(lib.Clone(msg), lib.Clone(info), lib.Clone(salt), rb.Bytes(), rInv.Bytes())
 		if !a.intact() {
@@ -298,6 +304,9 @@ func TestVerifArgumentsAndStateReuse(t *testing.T) {
 			return
 		}
 		a = newArena(info, msg, s1)
+		if c.run%2 == 0 {
+			_, _ = verifier.Hash().Write([]byte("left over"))
+		}
 		ev := verifier.Verify(a.arg(1), a.arg(0), a.arg(2))
 		if !a.intact() {
 			viol("argument-memory-written", "partiallyblindrsa.Verifier.Verify", "arena_before", a.orig, "arena_after", a.buf)
